@@ -434,7 +434,7 @@ def pwl_calibration_fn(
       kernel_outputs = kernel_outputs[:, :, :-1]
     else:
       missing_output = tf.fill(
-          kernel_outputs[:, :, -1].shape, missing_output_value
+          tf.shape(kernel_outputs[:, :, -1]), missing_output_value
       )
 
   if monotonicity == "none":
